@@ -114,6 +114,12 @@ class Ops:
             return I(v[1], "u64")
         if k == "downcast" and v[1][0] == "next" and v[2] == "Some" and name == "0":
             return ("elem", v[1][1])
+        if k == "trydown" and name == "0":
+            tb, variant = v[1], v[2]
+            inner = tb[2]
+            if variant == "Continue":
+                return self.field(self.downcast(inner, "Some" if tb[1] == "option" else "Ok"), "0")
+            return ("residual", tb[1], inner)
         return ("field", v, name)
 
     def index(self, v, i):
@@ -135,6 +141,8 @@ class Ops:
         return ("index", v, i)
 
     def downcast(self, v, variant):
+        if v[0] == "trybranch":
+            return ("trydown", v, variant)
         if v[0] in ("agg", "enum"):
             return v
         return ("downcast", v, variant)
@@ -186,6 +194,11 @@ class Ops:
     # --- operators
     def discr(self, v):
         k = v[0]
+        if k == "trybranch":
+            # ControlFlow discriminant: Continue = 0, Break = 1
+            if v[1] == "option":
+                return self.bin("Eq", self.discr(v[2]), I(0, "isize"))      # Break iff None
+            return self.discr(v[2])                                            # Result: Ok=0 -> Continue=0
         if k == "agg":
             if v[3] is not None:
                 d = self.discr_of(v[1], v[2])
@@ -963,6 +976,10 @@ class SymExec:
 
     def implied(self, st, d):
         """value of condition d implied by earlier decisions, or None"""
+        if d[0] == "bin" and d[1] in CMP and d[3][0] == "int" and d[2] in st.decided and isinstance(st.decided[d[2]], int):
+            return int(CMP[d[1]](st.decided[d[2]], d[3][1]))
+        if d[0] == "bin" and d[1] in CMP and d[2][0] == "int" and d[3] in st.decided and isinstance(st.decided[d[3]], int):
+            return int(CMP[d[1]](d[2][1], st.decided[d[3]]))
         r2 = self.eq_some_enum(d)
         if r2 is not None:
             x, k, is_eq = r2
@@ -1377,6 +1394,16 @@ class SymExec:
                 if cur[0] in ("iter", "iter*"):
                     self.store_ptr(st, p, ("iter*", cur[1]))
                     return ("next", cur[1])
+        if name.endswith("core::ops::try_trait::Try>::branch") and len(args) == 1:
+            kind = "option" if name.startswith("<core::option::Option<") else ("result" if name.startswith("<core::result::Result<") else None)
+            if kind:
+                return ("trybranch", kind, args[0])
+        if "core::ops::try_trait::FromResidual" in name and name.endswith("::from_residual") and len(args) == 1:
+            r = args[0]
+            if name.startswith("<core::option::Option<"):
+                return ("agg", "core::option::Option", "None", 0, ())
+            if name.startswith("<core::result::Result<") and r[0] == "residual":
+                return ("agg", "core::result::Result", "Err", 1, (("0", ("errconv", self.ops.field(self.ops.downcast(r[2], "Err"), "0"))),))
         if name == "core::num::<impl u64>::wrapping_sub":
             return o.bin("Sub", args[0], args[1])
         if name == "core::num::<impl u64>::wrapping_mul":
